@@ -4,6 +4,7 @@
 -/
 import Atto.Std.Io
 import Atto.Std.Utf8
+import Atto.Gen.Consts
 namespace Atto
 
 def isHexDigit (b : UInt8) : Bool := (hexVal? b).isSome
@@ -34,18 +35,26 @@ def encChunks (cs : List ChunkS) : Bytes := cs.flatMap ChunkS.enc
 
 def payloadOf (cs : List ChunkS) : Bytes := cs.flatMap (·.data)
 
-/-- The last-chunk: `1*"0" [ext] CRLF` followed by the final CRLF (empty trailer section). -/
+/-- The last-chunk `1*"0" [ext] CRLF`, the trailer section `*( field-line CRLF )` (RFC 9112 §7.1.2;
+    the recipient may discard it: it is not payload) and the final CRLF. -/
 structure LastS where
   zeros : Bytes
   ext : Bytes
+  trailers : List Bytes := []     -- the field lines of the trailer section, without their CRLF
   deriving Repr
 
+/-- `trailerLimit` / `maxTrailers`: the client's bounds on the length of a trailer line (with its line
+    ending) and on the number of trailer lines. -/
 def LastS.WF (lineLimit : Nat) (l : LastS) : Prop :=
   l.zeros ≠ [] ∧ (∀ b ∈ l.zeros, b = 48) ∧
   (l.ext = [] ∨ l.ext.head? = some 59) ∧ (10 : UInt8) ∉ l.ext ∧
-  l.zeros.length + l.ext.length + 2 ≤ lineLimit
+  l.zeros.length + l.ext.length + 2 ≤ lineLimit ∧
+  (∀ t ∈ l.trailers, t ≠ [] ∧ (10 : UInt8) ∉ t ∧ t.length + 2 ≤ Consts.trailerLineLimit) ∧
+  l.trailers.length ≤ Consts.maxTrailerLines
 
-def LastS.enc (l : LastS) : Bytes := l.zeros ++ l.ext ++ [13, 10, 13, 10]
+def encTrailers (ts : List Bytes) : Bytes := ts.flatMap (· ++ [13, 10])
+
+def LastS.enc (l : LastS) : Bytes := l.zeros ++ l.ext ++ [13, 10] ++ encTrailers l.trailers ++ [13, 10]
 
 /-- bytes as flat items -/
 def bytesI (bs : Bytes) : List Item := bs.map Item.byte
